@@ -18,6 +18,9 @@ func gen(seed int64, tier string, idx int) *pipe.Scenario {
 	}
 	sc := g.Scenario(o)
 	instant := []string{"startup", "mid", "dst-blocked", "dlq-blocked", "during-graceful", "idle"}[idx%6]
+	if idx%14 == 9 {
+		instant = "during-backoff"
+	}
 	sc.Name = instant
 	var steps []pipe.Step
 	switch instant {
@@ -54,6 +57,17 @@ func gen(seed int64, tier string, idx int) *pipe.Scenario {
 			pipe.Step{AtEvent: 0, Op: "forcestop", AfterPrevUs: g.R.Intn(3000)})
 	case "idle":
 		steps = append(steps, pipe.Step{AtEvent: -1, Op: "forcestop"})
+	case "during-backoff":
+		// the run fails transiently; the force stop arrives while recovery is
+		// waiting out its back-off
+		d := &sc.Topo.Dests[0]
+		d.Dst.Shape = map[int]string{2 + g.R.Intn(8): "streamerr"}
+		d.Dst.ShapeSess = 1
+		sc.RecMinDelayUs = 60000
+		sc.RecMaxDelayUs = 120000
+		sc.RecMaxRetries = 3
+		steps = append(steps, pipe.Step{AtEvent: 0, Op: "await-recovering"},
+			pipe.Step{AtEvent: 0, Op: "forcestop", AfterPrevUs: g.R.Intn(30000)})
 	}
 	if instant != "dst-blocked" && instant != "dlq-blocked" {
 		steps = append(steps, pipe.Step{AtEvent: 0, Op: "wait"})
@@ -81,6 +95,16 @@ func hooks(sc *pipe.Scenario) *pipe.Hooks {
 				d.Block()
 			}
 			r.Log.Append(rig.Ev{Kind: rig.KNote, Note: "blocked", Comp: "dlq"})
+			return true
+		case "await-recovering":
+			r.Log.WaitFor(func(evs []rig.Ev) bool {
+				for i := len(evs) - 1; i >= 0; i-- {
+					if evs[i].Kind == rig.KCommit && evs[i].Snap != nil {
+						return evs[i].Snap.Status[sc.Topo.Pipeline] == "Recovering"
+					}
+				}
+				return false
+			}, 10e9)
 			return true
 		case "unblockdlq":
 			for _, d := range r.Plugins.DLQs() {
